@@ -165,6 +165,7 @@ struct slice
 channel_read_map(struct channel* self, struct channel_reader* reader)
 {
     size_t nbytes = 0;
+    int released_space = 0;
     lock_acquire(&self->lock);
 
     reader_initialize(self, reader);
@@ -203,6 +204,7 @@ channel_read_map(struct channel* self, struct channel_reader* reader)
         // far: an empty region must mean there is nothing left to read.
         *pos = 0;
         *cycle = self->cycle;
+        released_space = 1;
         out = self->data;
         nbytes = self->head;
         reader->pos = self->head;
@@ -217,6 +219,10 @@ channel_read_map(struct channel* self, struct channel_reader* reader)
 
 Finalize:
     lock_release(&self->lock);
+    // Moving this reader's bookmark forward may be what a blocked writer is
+    // waiting for.
+    if (released_space)
+        condition_variable_notify_all(&self->notify_space_available);
     return (struct slice){ .beg = out, .end = out + nbytes };
 Overflow:
     reader->status = Channel_Error;
@@ -225,6 +231,7 @@ AdvanceToWriterHead:
     nbytes = 0;
     *pos = self->head;
     *cycle = self->cycle;
+    released_space = 1;
     goto Finalize;
 }
 
